@@ -38,6 +38,17 @@ def plan(tier, seed):
     return specs
 
 
+# forms that contain no call of user code and no assignment: whatever their operands are, they leave them as they were
+FORM_TEXT = {f[0]: f[1] for f in P.FORMS}
+PURE_FORMS = {"add", "sub", "mul", "div", "mod", "eq", "ne", "lt", "le", "gt", "ge", "is", "and", "or", "not", "neg", "pos", "in", "not-in", "is-in", "chain",
+              "deref", "deref-default", "slice", "slice-open", "member", "for", "for-keys", "for-entries", "for-destr", "for-expr", "listcomp", "listcomp-keys",
+              "listcomp-entries", "listcomp-if", "listcomp-prod", "listcomp-par", "setcomp", "setcomp-values", "setcomp-prod", "setcomp-par", "mapcomp",
+              "mapcomp-entries", "list-spread", "call-spread", "call-spread2", "list-lit", "set-lit", "map-lit", "obj-lit", "def-destr", "assign-destr", "error",
+              "if", "while", "pipe", "interp", "interp-fmt", "interp-digits", "interp-hex", "is-empty", "is-zero", "is-negative", "is-numerical", "is-alnum-len",
+              "is-date", "is-date-hour", "is-time", "is-string", "is-not-list", "starts", "ends-not", "contains", "matches", "return", "catch-value",
+              "compound-assign", "compound-mul", "string-of", "string-of-list", "map-key", "set-member", "return-bare", "deep-parens", "deep-list"}
+
+
 def run_matrix(spec, ctx, cases):
     import ckl.functions
     mon = mutation.MONITOR
@@ -47,7 +58,25 @@ def run_matrix(spec, ctx, cases):
     for callee, k, prog, names in cases:
         env = ckl.functions.Environment()
         before = len(mon.findings)
-        o = observe(lambda: it.interpret(prog, "c16", env), BUDGET)
+        form_text = FORM_TEXT.get(callee[5:]) if k == "form" and callee[5:] in PURE_FORMS else None
+        if form_text is not None and prog.endswith("; " + form_text):
+            # an operator / indexing / iteration form is no call: its operands are looked at directly, before and after
+            pre = prog[:-len(form_text) - 2]
+            o0 = observe(lambda: it.interpret(pre, "c16", env), BUDGET)
+            if o0.kind == "value":
+                held = {v: env.map[v] for v in ("a", "b", "c") if v in env.map}
+                snaps = {v: mutation.snap(x) for v, x in held.items()}
+                o = observe(lambda: it.interpret(form_text, "c16", env), BUDGET)
+                ctx.count("form_operand_snapshots", len(snaps))
+                for v, x in held.items():
+                    after = mutation.snap(x)
+                    if after != snaps[v]:
+                        ctx.violation("C16:form-changed-operand:%s:%s" % (callee[5:], v), "%s: operand %s was %s before and is %s afterwards" % (
+                            prog, v, core.safe_str(snaps[v], 150), core.safe_str(after, 150)), {"src": prog})
+            else:
+                o = o0
+        else:
+            o = observe(lambda: it.interpret(prog, "c16", env), BUDGET)
         n += 1
         ctx.case((callee, names), nontrivial=any(x.split("-")[0] in ("list", "set", "map", "object") for x in names))
         ctx.count("outcome_" + o.kind)
